@@ -23,7 +23,7 @@ from nunavut._postprocessors import (
     SetFileMode,
     TrimTrailingWhitespace,
 )
-from nunavut._utilities import DefaultValue, YesNoDefault
+from nunavut._utilities import TEMPLATE_SUFFIX, DefaultValue, YesNoDefault
 from nunavut.lang import Language, LanguageContext, LanguageContextBuilder
 
 
@@ -212,6 +212,12 @@ class ArgparseRunner:
                 self._support_generator.get_templates(omit_serialization_support=self._args.omit_serialization_support),
                 lambda p: str(p.resolve()),
             )
+            if self._args.support_templates is not None:
+                # templates found in a user-provided support template directory override the built-in ones
+                self._stdout_lister(
+                    sorted(pathlib.Path(self._args.support_templates).glob("**/*" + TEMPLATE_SUFFIX)),
+                    lambda p: str(p.resolve()),
+                )
 
         if self._args.generate_support != "only":
             if self._generator.generate_namespace_types:
